@@ -187,15 +187,16 @@ def overlap_tag(r1, r2, s2, d1, d2, hcap, ccap, rmax):
     """two observations through the real admission path; hot free space after every step"""
     wit.begin()
     s2, d1, d2 = cz(s2, 0, 2), cz(d1, 1, 3), cz(d2, 1, 3)
+    mi = PIN.get('max_ingest', 2)          # 1: the second observation has to wait for the first one's ingest machine (starts late)
     env, c = new_cluster(2)
     hot, cold = HotBuffer(hcap, rmax), ColdBuffer(ccap, rmax)
     buf = Buffer(env, c, None, FakeCfg(hot=hot, cold=cold))
     sch = Scheduler(env, buf, c, None)
     obs = [Observation('o1', 0, d1, 1, 'wf', r1), Observation('o2', s2, d2, 1, 'wf', r2)]
-    tel = Telescope(env, FakeCfg(instrument=(4, {'o1': {'ingest_demand': 1}, 'o2': {'ingest_demand': 1}}, obs, 2)), None, sch)
+    tel = Telescope(env, FakeCfg(instrument=(4, {'o1': {'ingest_demand': 1}, 'o2': {'ingest_demand': 1}}, obs, mi)), None, sch)
     env.process(tel.run())
     try:
-        for k in range(12):
+        for k in range(14):
             env.run(env.now + 1)
             if hot.current_capacity < 0 or hot.current_capacity > hot.total_capacity:
                 return 'C07/hot-buffer-out-of-range'
@@ -205,6 +206,9 @@ def overlap_tag(r1, r2, s2, d1, d2, hcap, ccap, rmax):
     except Exception as ex:
         return f'C07/raises/{type(ex).__name__}'
     done = [o for o in obs if o in hot.observations['stored']]
+    for o in obs:
+        if o.status is RunStatus.FINISHED and (o not in done or o.total_data_size != o.ingest_data_rate * o.duration):
+            return 'C07/observation-finished-without-depositing-rate-times-duration'
     for o in done:
         if o.total_data_size != o.ingest_data_rate * o.duration:
             return 'C07/total-not-rate-times-duration'
@@ -234,5 +238,6 @@ def warmup():
 def shards(tier, prop):
     T = 200 if tier == 'quick' else 1200
     out = [{'fn': f, 'cond_timeout': T, 'path_timeout': 40} for f in ('ingest', 'admit', 'overlap', 'reject', 'free_mid')]
+    out.append({'fn': 'overlap', 'pin': {'max_ingest': 1}, 'cond_timeout': T, 'path_timeout': 40})
     out += [{'fn': f, 'cond_timeout': 40, 'twin': True} for f in ('ingest', 'admit', 'overlap', 'reject', 'free_mid')]
     return out
